@@ -122,6 +122,7 @@ def replay_family(chk: Check, fam, data, tier):
                     import spatialpandas as sp
                     ser = sp.GeoSeries(arr, index=[f"r{i}" for i in range(len(arr))])
                 scal = None
+                ser_ix = None
                 for b, B in enumerate(boxes):
                     cb = aff.box(B)
                     orders = geom.corner_orders(cb)
@@ -150,6 +151,14 @@ def replay_family(chk: Check, fam, data, tier):
                             j = int(np.nonzero(got_i != got[indsk])[0][0])
                             report(chk, kind, els, aff, subtype, box, B, int(indsk[j]), "inds", bool(got_i[j]), int(want[indsk[j]]),
                                    extra=f"inds={indsk.tolist()} position {j}")
+                    if ser is not None and b % 5 == 2:
+                        # history: the series' spatial index has been built before; any corner order
+                        if ser_ix is None:
+                            ser_ix = sp.GeoSeries(arr.copy(), index=list(ser.index))
+                            ser_ix.build_sindex(page_size=3)
+                        got_x = ser_ix.intersects_bounds(orders[b % 4])
+                        if list(got_x.index) != list(ser.index) or not np.array_equal(got_x.values, np.asarray(arr.intersects_bounds(orders[0]))):
+                            report(chk, kind, els, aff, subtype, orders[b % 4], B, 0, "GeoSeries with a built spatial index", None, None)
                     if ser is not None:
                         got_s = ser.intersects_bounds(orders[0])
                         if list(got_s.index) != list(ser.index) or not np.array_equal(got_s.values, np.asarray(arr.intersects_bounds(orders[0]))):
